@@ -63,9 +63,17 @@ bool corrupt(Msg &m, int kind, size_t pos, unsigned bit) {
 
 // true plaintext leak test after a *rejected* open: does `out` hold the CTR/stream decryption of what was presented?
 bool released(const uint8_t *out, const std::vector<uint8_t> &leak) {
-    if (leak.size() < 8) return false;
-    size_t same = 0; for (size_t i = 0; i < leak.size(); i++) if (out[i] == leak[i]) same++;
-    return same + 1 >= leak.size();
+    size_t n = leak.size();
+    if (n < 8) return false;
+    size_t same = 0, zeros = 0, canary = 0;
+    for (size_t i = 0; i < n; i++) { same += out[i] == leak[i]; zeros += out[i] == 0; canary += out[i] == CANARY; }
+    if (zeros == n || canary == n) return false;      // wiped or never written: nothing released (even if the plaintext itself is all zeros)
+    return same + 1 >= n;
+}
+// plaintext: tape data whitened with a fixed pattern so that sparse (mostly zero) tapes do not give all-zero plaintexts
+void gen_plain(Tape &t, std::vector<uint8_t> &pt) {
+    gen_data(t, pt.data(), pt.size());
+    for (size_t i = 0; i < pt.size(); i++) pt[i] ^= (uint8_t) (0x5A + 29 * i);
 }
 
 // ------------------------------------------------------------------------------------------------- AES-GCM
@@ -136,7 +144,7 @@ void gcm_case(Tape &t, Ctx &c) {
         Msg m; m.nonce.resize(12); t.bytes(m.nonce.data(), 12);
         size_t alen = gen_aad(t); if (sweep) alen %= 21; m.aad.resize(alen); gen_data(t, m.aad.data(), alen);
         Len L = gen_len(t, 16); if (sweep) L.n %= 34;
-        std::vector<uint8_t> pt(L.n); gen_data(t, pt.data(), L.n);
+        std::vector<uint8_t> pt(L.n); gen_plain(t, pt);
         size_t tl = 16; { unsigned s = t.u8(); if (s >= 150) tl = (size_t) t.range(1, 16); if (s >= 240) tl = (size_t) t.range(1, 7); }
         bool null_aad = t.coin();
         // ---- seal
@@ -282,7 +290,7 @@ void chacha_case(Tape &t, Ctx &c) {
         Len L = gen_len(t, 64);                     // ChaCha20 block = 64, Poly1305 block = 16
         if (t.u8() >= 170) L = gen_len(t, 16);
         if (sweep) L.n %= 34;
-        std::vector<uint8_t> pt(L.n); gen_data(t, pt.data(), L.n);
+        std::vector<uint8_t> pt(L.n); gen_plain(t, pt);
         std::vector<uint8_t> wct(L.n + 1), wtag(16);
         C12_ORACLE_OK(c, o_aead_seal(O_CHACHA20_POLY1305, g.key.data(), 32, m.nonce.data(), m.aad.data(), alen, pt.data(), L.n, wct.data(), wtag.data(), 16));
         unsigned io = (unsigned) t.below(16), oo = (unsigned) t.below(16);
